@@ -45,7 +45,7 @@ CHECKS["C14"] = dict(
 
 CHECKS["C13"] = dict(
     category="exploration",
-    technique="real muxer over a sparse >4 GiB verifying stream; boundary scenarios just below/at/above each 2^32 limit; independent decoder + full read-back",
+    technique="real muxer over a sparse >4 GiB verifying stream (half the time one that takes short writes); boundary scenarios just below/at/above each 2^32 limit plus thousands of generated no-volume scenarios; independent decoder, configuration oracle and full read-back",
     text=("Places media-data size, chunk offsets (by volume and by non-zero start position) and media/track/movie durations just below, at and above "
           "2^32 for every media kind and (thorough) a single chunk larger than 4 GiB, then checks with the independent decoder that the 64-bit forms are "
           "used exactly when needed and no field is truncated, and reads every sample back through the real reader. The boundaries are few and known, so "
@@ -55,7 +55,7 @@ CHECKS["C13"] = dict(
 )
 CHECKS["C17"] = dict(
     category="exploration",
-    technique="panic monitor over degenerate muxer histories in two build profiles; C01/C02 oracles on the all-Ok runs",
+    technique="panic monitor over degenerate muxer histories in two build profiles, also continued after a single injected sink error; C01/C02 oracles on the runs whose only errors are required rejections",
     text=("Perturbs documented-domain histories with 14 classes of degenerate arguments and call orders and runs every call under a panic hook in the "
           "overflow-checked and the release profile; all-Ok finished histories are additionally judged by the C01 and C02 oracles."),
     note="Samples >= 4 GiB are not exercised (F35 in DESIGN 7).",
@@ -122,7 +122,7 @@ CHECKS["C05"] = dict(
 
 CHECKS["C06"] = dict(
     category="exploration",
-    technique="panic hook + process-death journal over a structure-aware mutated corpus, full accessor sweep, two build profiles",
+    technique="panic hook + process-death journal over a structure-aware mutated corpus (single / directed-pair / havoc mutations, amplifiers, generated movies), full accessor sweep, two build profiles; thorough: the same workload under AddressSanitizer and a targeted workload under Miri",
     text=("About 50 valid seed files of every layout and codec are mutated by boundary-value substitution into every field of the reference encoder's "
           "field map (complete in thorough), pairwise substitution, byte-level havoc and 14 amplifier families; every input is opened (also as a fragment "
           "against opened init segments) and every public read-side accessor is called under a panic hook, in the overflow-checked and the release "
@@ -159,7 +159,7 @@ CHECKS["C10"] = dict(
 )
 CHECKS["C11"] = dict(
     category="fault_enumeration",
-    technique="every cut position of every corpus file; prefix results compared with the library's own answers on the complete file",
+    technique="every cut position of every corpus file and of thousands of generated movies (stbl order permuted in half); prefix results compared with the library's own answers on the complete file",
     text=("Every proper prefix (all cut positions; strided inside large media data in the quick tier only) of about 50 valid files in every layout is "
           "opened with its own length under a stream budget; when it opens, every sample of the complete file is read and must be an error/absence or "
           "equal in bytes and timing to the complete file's sample."),
@@ -168,7 +168,7 @@ CHECKS["C11"] = dict(
 )
 CHECKS["C15"] = dict(
     category="exploration",
-    technique="random call schedules on one long-lived reader versus single calls on fresh readers; repeated muxing in-process and in a separate process; double open",
+    technique="history-relative call schedules (incl. transient I/O errors) on one long-lived reader versus single calls on fresh readers; segment readers opened through parents with different histories; repeated muxing in-process, across a second boundary and in a separate process; eightfold re-open",
     text=("Schedules of 200-2000 mixed calls, including failing ones on damaged files, are replayed on one reader and each result compared with a "
           "fresh reader asked once; muxing histories are repeated in the same and in another process and outputs compared; each subject is opened twice "
           "and the parsed structures compared."),
